@@ -38,6 +38,25 @@ def run():
     for r in rr:
         if r.get("kind") == "mismatch":
             v.fail("archive-replay", r)
+    # the writers under ArchiveLicenses: success is reported exactly when the destination took the whole archive (V1ArchiveWriter; dropping
+    # the error of the compressor's final flush must fail), then a destination that fails after `room` bytes under the real ArchiveLicenses
+    r = tlc_require_ok(tlc("V1ArchiveWriter", "V1ArchiveWriter.cfg", timeout=300), "V1ArchiveWriter"); acc.add_tlc(r, "V1ArchiveWriter.cfg")
+    nv = tlc("V1ArchiveWriter", "V1ArchiveWriterAsBuilt.cfg", timeout=300)
+    if nv.violated != "SuccessMeansWritten":
+        raise vlib.Inconclusive("V1ArchiveWriterAsBuilt.cfg did not violate SuccessMeansWritten: " + nv.tail[-1500:])
+    acc.tlc.append({"cfg": "V1ArchiveWriterAsBuilt.cfg", "expected_violation": nv.violated})
+    outw = os.path.join(sub("out"), "archive.writer.ndjson")
+    if os.path.exists(outw):
+        os.remove(outw)
+    rc, txt, _ = go_overlay_test("serializer", SRC + ["serializer/archive_replay_test.go"], "^TestVerifArchiveWriter$", env={"VERIF_OUT": outw}, timeout=1800, abs_extra=overlay_extra())
+    rw = read_ndjson(outw)
+    sw = [x for x in rw if x.get("kind") == "summary"]
+    if vlib.build_failed(txt) or not sw or sw[0]["vectors"] == 0:
+        raise vlib.Inconclusive("archive writer driver failed:\n" + txt[-3000:])
+    acc.evaluations += sw[0]["vectors"]; acc.extra["failing_destinations"] = sw[0]
+    for x in rw:
+        if x.get("kind") == "mismatch":
+            v.fail("archive-writer", x)
     env = {"VERIF_ROUNDS": "4" if th else "3", "VERIF_SUBSET": "178" if th else "25", "VERIF_QUERIES": "60" if th else "16"}
     recs, rc, txt = run_lic("TestVerifC15", env)
     for r in recs:
